@@ -453,8 +453,14 @@ var PlainData = []reflect.Type{
 // WithStd are types using standard-library marshalers (C04 only) and the repeated-type struct.
 var WithStd = []reflect.Type{reflect.TypeFor[StdTypes](), reflect.TypeFor[Repeats](), reflect.TypeFor[time.Time](), reflect.TypeFor[*time.Time](), reflect.TypeFor[[]slog.Level](), reflect.TypeFor[map[string]time.Time]()}
 
+// Pointer types that refer to themselves without any struct on the way.
+type SelfPtr *SelfPtr
+type PtrA *PtrB
+type PtrB *PtrA
+type PtrSlice []*PtrSlice
+
 // Recursive types must make For return an error.
-var Recursive = []reflect.Type{reflect.TypeFor[Rec](), reflect.TypeFor[RecSlice](), reflect.TypeFor[RecMap](), reflect.TypeFor[MutA](), reflect.TypeFor[MutB](), reflect.TypeFor[RecDeep](), reflect.TypeFor[[]*Rec](), reflect.TypeFor[map[string]MutA]()}
+var Recursive = []reflect.Type{reflect.TypeFor[SelfPtr](), reflect.TypeFor[PtrA](), reflect.TypeFor[*PtrB](), reflect.TypeFor[PtrSlice](), reflect.TypeFor[struct{ P SelfPtr }](), reflect.TypeFor[Rec](), reflect.TypeFor[RecSlice](), reflect.TypeFor[RecMap](), reflect.TypeFor[MutA](), reflect.TypeFor[MutB](), reflect.TypeFor[RecDeep](), reflect.TypeFor[[]*Rec](), reflect.TypeFor[map[string]MutA]()}
 
 // Unsupported types must make For return an error, or be pruned with IgnoreInvalidTypes.
 var Unsupported = []reflect.Type{reflect.TypeFor[BadChan](), reflect.TypeFor[BadFunc](), reflect.TypeFor[BadComplex](), reflect.TypeFor[BadMapKey](), reflect.TypeFor[BadDeep](), reflect.TypeFor[BadTagged](), reflect.TypeFor[[]BadTagged](), reflect.TypeFor[TwiceBad](), reflect.TypeFor[[]*TwiceBad](), reflect.TypeFor[map[string]TwiceBad](), reflect.TypeFor[NamedFunc](), reflect.TypeFor[[2]NamedChan](), reflect.TypeFor[chan int](), reflect.TypeFor[func()](),
